@@ -426,6 +426,18 @@ func (a *ArithR) ufMath(e *Exec, st *State, name string, x *Term, where string) 
 			}
 		}
 	}
+	// lemma points of the periodic functions: the native value near p (Lipschitz constant 1)
+	if name == "Sin" || name == "Cos" {
+		for _, p := range e.LemmaPoints[name] {
+			v := math.Sin(p)
+			if name == "Cos" {
+				v = math.Cos(p)
+			}
+			d := s.Sub(x, s.Float(p))
+			near := s.And(s.Le(s.Float(-1e-9), d), s.Le(d, s.Float(1e-9)))
+			ax(s.Implies(near, s.And(s.Le(s.Float(v-1e-8), r), s.Le(r, s.Float(v+1e-8)))))
+		}
+	}
 	// lemma points: native value at p (widened) + monotonicity
 	if mono != 0 {
 		for _, p := range e.LemmaPoints[name] {
